@@ -5,6 +5,7 @@ from fractions import Fraction
 from ..gen import points as G
 from .c11_translate import translate as _translate_guards  # translated fragments: query write sets and single-form guards
 from ..gen import c11_source as _SRC                       # translated BODIES (round 4): Generated/C11Src.lean
+from ..translate import site as T_site
 from ..gen import c12_source as _BOX                       # translated BODIES of aabb.py: Generated/C12Box.lean (shared with C12)
 
 _BOX_SITES = ("AABB.__init__", "AABB.dim", "AABB.mini", "AABB.maxi", "AABB.infinite", "AABB.distance")
@@ -14,12 +15,16 @@ def translate():
     """every site of the translators; a site that is not understood comes back ok=False (broken obligation).  Of aabb.py only
     the methods KDTree uses count here (the others belong to property C12)."""
     box = [s for s in _BOX.translate() if any(s["site"].startswith("aabb.py: " + m + " ") for m in _BOX_SITES) or "class AABB" in s["site"]]
-    return _translate_guards() + _SRC.translate() + box
+    from ..gen import c20_translate as _C20       # PriorityQueue bodies (translator of property C20): Generated/C20PQ.lean
+    pq = T_site("priority_queue.py: PriorityItem fields + __lt__, PriorityQueue.data home, push/get/pop/front/empty over heapq",
+                _C20._stubbed("C20PQ", _C20.PQ_HEADER, "Mouette.Generated.C20PQ", _C20.site_priority_queue))
+    vec = [s for s in _BOX.translate_vec() if s["site"] in ("geometry.py: norm (body)", "geometry.py: distance (body)") or "vector.py / geometry.py" in s["site"]]
+    return _translate_guards() + _SRC.translate() + box + [pq] + vec
 
 
 PID = "C11"
 TITLE = "k-d tree queries are exact and construction always terminates"
-LEAN_MODULES = ["Mouette.Props.C11", "Mouette.Props.C11F", "Mouette.Props.C11G", "Mouette.Props.C11S", "Mouette.Props.C11B"]
+LEAN_MODULES = ["Mouette.Props.C11", "Mouette.Props.C11F", "Mouette.Props.C11G", "Mouette.Props.C11S", "Mouette.Props.C11B", "Mouette.Props.C11Q"]
 REQUIRED_THEOREMS = ["build_terminates", "buildRoot_terminates", "build_partition", "buildRoot_partition", "build_boxes",
                      "buildRoot_boxes", "radius_exact", "knn_exact", "knn_distances_k_smallest", "kdtree_correct",
                      "buildOriginal_diverges", "knnOriginal_wrong",
@@ -35,7 +40,11 @@ REQUIRED_THEOREMS = ["build_terminates", "buildRoot_terminates", "build_partitio
                      "trim_bridge", "trim_exits", "query_bridge", "queryRadius_bridge", "ctor_copies_points",
                      "init_source_correct", "source_children_ordered", "query_source_exact", "query_radius_source_exact",
                      # the box operations KDTree relies on, as extracted from aabb.py (Generated/C12Box.lean; Props/C11B.lean)
-                     "kd_box_ctor", "kd_box_infinite", "kd_box_bounds", "kd_box_distance", "kd_box_distance_le"]
+                     "kd_box_ctor", "kd_box_infinite", "kd_box_bounds", "kd_box_distance", "kd_box_distance_le", "kd_point_distance",
+                     # round 5: _find_pivot / BuildStrategy.from_string translated; C11 for every strategy and every outcome of
+                     # numpy.random.choice; the PriorityQueue assumption proved on the extracted priority_queue.py (Props/C11Q.lean)
+                     "findPivot_bridge", "findPivot_total", "strategy_table", "kdtree_source_all_strategies",
+                     "run_isHeap", "pq_assumption_source", "pq_order_is_priority"]
 
 # Which function of the anchor files is tied to the model how (computed by hand from what the translators emit and what
 # the bridge theorems of Props/C11S.lean, Props/C11G.lean, Props/C12S.lean use).
@@ -47,8 +56,8 @@ SOURCE_MAP = {
     "mouette/spatial/kdtree.py::KDTree.query": "translated",             # C11S.query = knnFlat (query_bridge)
     "mouette/spatial/kdtree.py::KDTree.query_radius": "translated",      # C11S.queryRadius = radiusFlat (queryRadius_bridge)
     "mouette/spatial/kdtree.py::KDTree.Leaf.size": "translated",         # C11S.leafSize (used by initBody_bridge)
-    "mouette/spatial/kdtree.py::KDTree._find_pivot": "modelled",         # a PARAMETER of the model (every function of the cell): theorems hold for every strategy / draw
-    "mouette/spatial/kdtree.py::KDTree.BuildStrategy.from_string": "out-of-scope: only selects which pivot function is used; the theorems hold for every pivot function",
+    "mouette/spatial/kdtree.py::KDTree._find_pivot": "translated",       # C11S.findPivot (findPivot_bridge, kdtree_source_all_strategies); numpy.random.choice = arbitrary parameters
+    "mouette/spatial/kdtree.py::KDTree.BuildStrategy.from_string": "translated",   # C11S.strategyOfString / acceptedStrategies (strategy_table)
     "mouette/geometry/aabb.py::AABB.__init__": "translated",             # C12Box.ctor / ctorCopies (kd_box_ctor)
     "mouette/geometry/aabb.py::AABB.infinite": "translated",             # C12Box.infinite (kd_box_infinite)
     "mouette/geometry/aabb.py::AABB.distance": "translated",             # C12Box.distance = Box.dist2 (kd_box_distance)
@@ -57,13 +66,13 @@ SOURCE_MAP = {
     "mouette/geometry/aabb.py::AABB.dim": "translated",                  # C12Box.dim (used by kd_box_distance)
     "mouette/geometry/aabb.py::AABB.IncompatibleDimensionError.__init__": "out-of-scope: exception class",
     "mouette/geometry/aabb.py::AABB.__repr__": "out-of-scope: printing",
-    "mouette/utils/priority_queue.py::PriorityItem.__lt__": "modelled",  # candidate list sorted by distance (Model/KDSource.lean: pqPush/pqPop)
-    "mouette/utils/priority_queue.py::PriorityQueue.__init__": "modelled",
-    "mouette/utils/priority_queue.py::PriorityQueue.empty": "modelled",
-    "mouette/utils/priority_queue.py::PriorityQueue.front": "modelled",
-    "mouette/utils/priority_queue.py::PriorityQueue.get": "modelled",
-    "mouette/utils/priority_queue.py::PriorityQueue.pop": "modelled",
-    "mouette/utils/priority_queue.py::PriorityQueue.push": "modelled",
+    "mouette/utils/priority_queue.py::PriorityItem.__lt__": "translated",   # Generated/C20PQ.lean (translator of C20); Props/C11Q.lean: pq_assumption_source discharges the assumption of Model/KDSource.lean
+    "mouette/utils/priority_queue.py::PriorityQueue.__init__": "translated",   # Generated/C20PQ.lean (translator of C20); Props/C11Q.lean: pq_assumption_source discharges the assumption of Model/KDSource.lean
+    "mouette/utils/priority_queue.py::PriorityQueue.empty": "translated",   # Generated/C20PQ.lean (translator of C20); Props/C11Q.lean: pq_assumption_source discharges the assumption of Model/KDSource.lean
+    "mouette/utils/priority_queue.py::PriorityQueue.front": "translated",   # Generated/C20PQ.lean (translator of C20); Props/C11Q.lean: pq_assumption_source discharges the assumption of Model/KDSource.lean
+    "mouette/utils/priority_queue.py::PriorityQueue.get": "translated",   # Generated/C20PQ.lean (translator of C20); Props/C11Q.lean: pq_assumption_source discharges the assumption of Model/KDSource.lean
+    "mouette/utils/priority_queue.py::PriorityQueue.pop": "translated",   # Generated/C20PQ.lean (translator of C20); Props/C11Q.lean: pq_assumption_source discharges the assumption of Model/KDSource.lean
+    "mouette/utils/priority_queue.py::PriorityQueue.push": "translated",   # Generated/C20PQ.lean (translator of C20); Props/C11Q.lean: pq_assumption_source discharges the assumption of Model/KDSource.lean
 }
 for _f in ("unit_cube", "of_points", "of_mesh", "span", "center", "intersection", "__and__", "do_intersect", "union", "__or__",
            "pad", "contains_point", "project", "is_empty"):
